@@ -32,7 +32,12 @@ GuardCases == UNION {{ [to |-> NilItem, from |-> Embedded(g, 1)], [to |-> Embedd
               \* one side untyped: a typed `to` must refuse an untyped `from`; an untyped `to` takes the type of `from`
               \cup UNION {{ [to |-> Embedded(g, 1), from |-> [Embedded(g, 1) EXCEPT !.p = Restrict(@, DOMAIN @ \ {"type"})]],
                             [to |-> [Embedded(g, 1) EXCEPT !.p = Restrict(@, DOMAIN @ \ {"type"})], from |-> Embedded(g, 1)] } : g \in {"Object", "Actor", "Place"}}
-AllCopy == OneTerm \cup TwoTerms \cup GuardCases
+\* equivalent presentations of one id on the two sides: the merge must go through
+WithId(v, id) == With(v, "id", Str(id))
+VariantIds == UNION {{[to |-> WithId(With(BaseV(g, 1), "name", Nlv(<<LR(NilTag, "old")>>)), Base \o "same/1"),
+                       from |-> WithId(With(BaseV(g, 1), "summary", Nlv(<<LR(NilTag, "new")>>)), v)]
+                      : v \in {Base \o "same/1/", "http://example.com/same/1", "https://EXAMPLE.COM/same/1"}} : g \in {"Object", "Actor", "Collection"}}
+AllCopy == OneTerm \cup TwoTerms \cup GuardCases \cup VariantIds
 GenInit == mto = <<>> /\ mfrom = <<>> /\ phase = "gen"
 GenNext == FALSE /\ UNCHANGED vars
 ASSUME ndJsonSerialize("c18_cases.ndjson", SetToSeq(AllCopy))
